@@ -13,5 +13,6 @@ Extraction "model.ml"
   Setters.set_list
   Serial.serialize Serial.deserialize Serial.overlay
   PolyP.step PolyP.spec_step PolyP.abs PolyP.init PolyP.hs
+  RandBytes.randombytes RandBytes.calls
   Params.rows16 Params.rows32 Params.rows64 Shards.K16 Shards.K32 Shards.K64
   Z.modulo Z.div Z.mul Z.add Z.sub Z.pow.
